@@ -273,7 +273,11 @@ def _check_diagram_tables(ctx, prog):
     I = inputs.make_interp(prog, fuel=5000000)
     pfn = prog.one('convert_piece_to_letter')
     cfn = prog.one('convert_char_to_piece')
-    if not (ctx.anchor('fn convert_piece_to_letter', pfn is not None) and ctx.anchor('fn convert_char_to_piece', cfn is not None)):
+    if not ctx.anchor('fn convert_piece_to_letter', pfn is not None):
+        return
+    if cfn is None:
+        # no separate letter helper in the parser: the letter table is decided through the parser itself (rule <prop>.pb (c))
+        ctx.notes.append('C15.2: the parser has no convert_char_to_piece helper; its letter table is decided by C15.pb only')
         return
     # parser table
     ch = Term('tok', ('c',), 32, 0, 0x10FFFF)
@@ -354,3 +358,348 @@ def check_side_letters(ctx, prog):
         if not ok:
             ctx.finding('C15.2', dfn, 'side-letter', 'printer writes gold=%r silver=%r but the parser reads %s as silver'
                         % (printed[True], printed[False], sorted(silver_letters)))
+
+
+# ------------------------------------------------------------------------------------------------ header of the diagram
+def decode_template(hexbytes):
+    """format_args! template of this toolchain: 0xC0 = next argument with default formatting, 0x01..0x7f = literal text of
+    that many bytes, 0x00 = end. Anything else is not decoded (None)."""
+    b = bytes.fromhex(hexbytes)
+    out = []
+    i = 0
+    while i < len(b):
+        c = b[i]
+        if c == 0:
+            return out if i == len(b) - 1 else None
+        if c == 0xC0:
+            out.append(('arg', None))
+            i += 1
+        elif c < 0x80:
+            out.append(('lit', b[i + 1:i + 1 + c].decode('utf8', 'replace')))
+            i += 1 + c
+        else:
+            return None
+    return None
+
+
+def check_header(ctx, prog, parser_interp):
+    """C15.hdr: every header line the printer can emit is matched by the parser's constant pattern, with the digits captured
+    as the number group and the side letter as the side group; otherwise the parser silently falls back to its default."""
+    from . import regex_lite
+    ctx.rule('C15.hdr', 'the printed header "<move number><side letter>" (1 to 20 digits, either side) is matched by the parser\'s '
+                        'constant header pattern, which captures exactly the digits and the side letter in the groups the parser reads')
+    dfn = find_impl(prog, 'std::fmt::Display', 'engine::GameState', 'fmt')
+    ffn = find_impl(prog, 'std::str::FromStr', 'engine::GameState', 'from_str')
+    if not (dfn and ffn):
+        return
+    # 1. the printer's header: first formatted write
+    I = inputs.make_interp(prog, fuel=20000000)
+    I.strict_unknown = False
+    sides = {}
+    tmpl = None
+    for gold in (True, False):
+        st = State({})
+        a_sink, d_sink = [], []
+        I.watch = {"Arguments::<'a>::new": a_sink, 'new_display': d_sink}
+        I.memo.clear()
+        try:
+            v = inputs.ref_to(I, st, 'v', inputs.play_state(prog, gold, 0))
+            f = inputs.ref_to(I, st, 'f', Tok('fmt', 'std::fmt::Formatter'))
+            I.call_fn(dfn, [v, Ref(f.cell, (), True)], st)
+        except Undecided as e:
+            ctx.finding('C15.hdr', dfn, 'undecided', 'cannot follow the printer: %s' % e)
+            return
+        finally:
+            I.watch = {}
+        if not a_sink:
+            ctx.finding('C15.hdr', dfn, 'no-header', 'the printer makes no formatted write')
+            return
+        t0 = a_sink[0][1][0]
+        hexb = ''.join('%02x' % x.uval() for _, x in [(0, it[1]) for it in t0.items]) if isinstance(t0, Seq) else None
+        tmpl = decode_template(hexb) if hexb else None
+        nargs = sum(1 for k, _ in (tmpl or []) if k == 'arg')
+        args = [a[1][0] for a in d_sink[:nargs]]
+        if tmpl is None or nargs != 2:
+            ctx.finding('C15.hdr', dfn, 'template', 'header template %s not decoded as two placeholders' % (hexb,))
+            return
+        num, side = args
+        ok = isinstance(num, Term) and num.kind == 'tok' and as_text(side) is not None
+        if not ok:
+            ctx.finding('C15.hdr', dfn, 'header-args', 'header prints %r and %r (expected the move number field and a side letter)' % (num, side))
+            return
+        sides[gold] = as_text(side)
+    lits = [x for k, x in tmpl if k == 'lit']
+    pos = [k for k, _ in tmpl]
+    ok = pos[:2] == ['arg', 'arg']
+    ctx.ob('printer header is "<move number><side>%s" with sides %s' % (''.join(lits).encode('unicode_escape').decode(), sides), ok, sample=True)
+    if not ok:
+        ctx.finding('C15.hdr', dfn, 'header-shape', 'header template is %r' % (tmpl,))
+        return
+    tail = ''.join(lits) + ' +-----------------+\n8'
+    # 2. the parser's pattern and the groups it reads
+    pats = [t for (fn, at, t) in parser_interp.regex_patterns if fn == ffn or fn.startswith(ffn)]
+    if len(pats) != 1 or pats[0] is None:
+        ctx.finding('C15.hdr', ffn, 'pattern', 'expected one constant header pattern in the parser, found %r' % (pats,))
+        return
+    try:
+        rx = regex_lite.compile(pats[0])
+    except Exception as e:
+        ctx.finding('C15.hdr', ffn, 'pattern', 'header pattern %r is outside the supported fragment: %s' % (pats[0], e))
+        return
+    used = [e[3] for e in parser_interp.events if e[0] == 'captures-get']
+    bad = []
+    groups = None
+    n = 0
+    for k in range(1, 21):
+        for d in '1234567890':
+            digits = (d * k) if d != '0' else ('10' * k)[:k]
+            for gold, sl in sorted(sides.items()):
+                n += 1
+                text = digits + sl + tail
+                m = regex_lite.search(rx, text)
+                if m is None:
+                    bad.append((text[:k + 1], 'not matched: the parser falls back to its default header'))
+                    continue
+                g = {i: text[a:b] for i, (a, b) in m.items()}
+                gn = [i for i, x in g.items() if i and x == digits]
+                gs = [i for i, x in g.items() if i and x == sl]
+                if not gn or not gs:
+                    bad.append((text[:k + 1], 'captures %r' % ({i: g[i] for i in sorted(g) if i},)))
+                    continue
+                cur = (gn[0], gs[0])
+                if groups is None:
+                    groups = cur
+                elif groups != cur:
+                    bad.append((text[:k + 1], 'groups move: %r vs %r' % (cur, groups)))
+    ctx.analysed['header_strings'] = n
+    ctx.ob('all %d printed headers (1..20 digits x both sides) are matched with digits and side captured' % n, not bad, sample=True)
+    for text, why in bad[:3]:
+        ctx.finding('C15.hdr', ffn, 'header:%d-digits' % (len(text) - 1), 'printed header %r: %s (pattern %r)' % (text, why, pats[0]))
+    if groups is not None:
+        ok = used and used[0] == groups[0] and set(used) == set(groups)
+        ctx.ob('the parser reads group %d as the number and group %d as the side (reads: %s)' % (groups[0], groups[1], used), bool(ok))
+        if not ok:
+            ctx.finding('C15.hdr', ffn, 'groups', 'pattern captures number/side in groups %r but the parser reads groups %r' % (groups, used))
+
+
+# ------------------------------------------------------------------------------------------------ parsed boards are consistent
+def check_parsed_board_consistent(ctx, prog, prop, full=False):
+    """Base case of the board invariant for parsed positions (C10): the diagram parser sets the gold-owner bit of a square only
+    together with exactly one piece-type bit of the same square, and never two type bits.  The parser's own MIR is run with
+    its two loop-driving `next()` call sites scripted: a grid of *arbitrary, pairwise independent* characters at known
+    (row, column) positions.  (a) positions: the character at (r, c) can only influence bit 8r + c, through the same abstract
+    function everywhere; (b) for one square the Boolean relations between the seven bits are decided exactly."""
+    R = prop + '.pb'
+    ctx.rule(R, 'diagram parser, for every (row, column) and an arbitrary character: only the bit of that square can be set; the '
+                'owner bit is set only if a type bit is set; at most one type bit is set; rows or columns beyond 8 are rejected')
+    ffn = find_impl(prog, 'std::str::FromStr', 'engine::GameState', 'from_str')
+    newfn = prog.one('PieceBoard::new')
+    if not (ctx.anchor('impl FromStr for GameState', ffn is not None) and ctx.anchor('fn PieceBoard::new', newfn is not None)):
+        return
+    body = prog.fns[ffn]
+    I = inputs.make_interp(prog, fuel=20000000)
+    I.strict_unknown = False
+    inner_of, loops = I.loopinfo(body)
+    sites = []
+    for bi, blk in enumerate(body['blocks']):
+        t = blk['term']
+        if t['k'] == 'call' and (prog.callee(t) or '').endswith('as std::iter::Iterator>::next') and not blk.get('cleanup'):
+            depth = sum(1 for h, bs in loops.items() if bi in bs)
+            dty = body['locals'][t['dst']['l']] if t.get('dst') and not t['dst']['p'] else ''
+            sites.append((depth, bi, t, dty))
+    sites.sort(key=lambda x: (x[0], x[1]))
+    ok = len(sites) == 2 and sites[0][0] == 1 and sites[1][0] == 2 and 'char' in sites[1][3] and 'str' in sites[0][3]
+    ctx.ob('the parser has an outer loop over lines and an inner loop over characters', ok)
+    if not ok:
+        ctx.finding(R, ffn, 'shape', 'expected a line loop containing a character loop driven by Iterator::next; found %s'
+                    % [(d, ty) for d, _, _, ty in sites])
+        return
+    (_, _, t_out, ty_out), (_, _, t_in, ty_in) = sites
+    bad = []
+    nruns = 0
+
+    def run(grid):
+        """grid: list of (row, [columns])"""
+        st = State({})
+        st.store[('static', 'line0')] = Tok('line', 'str')
+        st.store[('static', 'line1')] = Ref(('static', 'line0'))
+        outer = [Enum(ty_out, 1, (Struct('tuple', (BV.const(r, 64), Ref(('static', 'line1')))),)) for r, _ in grid] + [Enum(ty_out, 0)]
+        inner = []
+        for r, cols in grid:
+            for c in cols:
+                ch = Term('tok', ('ch%d_%d' % (r, c),), 32, 0, 0x10FFFF)
+                inner.append(Enum(ty_in, 1, (Struct('tuple', (BV.const(c, 64), ch)),)))
+            inner.append(Enum(ty_in, 0))
+        I.site_script = {id(t_out): outer, id(t_in): inner}
+        sink = []
+        I.watch = {'PieceBoard::new': sink}
+        I.memo.clear()
+        try:
+            I.call_fn(ffn, [inputs.ref_to(I, st, 's', Tok('text', 'str'))], st)
+        finally:
+            I.watch = {}
+            I.site_script = {}
+        return [e[1] for e in sink]
+
+    def shape_ok(acc):
+        return len(acc) == 7 and all(isinstance(x, BV) and x.w == 64 for x in acc)
+
+    def char_atoms(bit):
+        """atoms of the bit that mention a scripted character: (atom kind, key text)"""
+        return [(B.ATOMS[v[1]].kind, repr(B.ATOMS[v[1]].key)) for v in B.rawvars(bit) if v[0] == '@' and "'ch" in repr(B.ATOMS[v[1]].key)]
+
+    def signature(bit, name):
+        if bit.kind == 'c':
+            return ('c', bit.tt)
+        return tuple(sorted((k, key.replace(name, 'CH')) for k, key in char_atoms(bit)))
+    # (0) rows / columns beyond the board are rejected before anything is recorded
+    for grid in ([(8, [0])], [(0, [8])]):
+        try:
+            sinks = run(grid)
+            nruns += 1
+            if sinks:
+                bad.append((grid[0], 'bounds', 'a character in row %d column %d reaches PieceBoard::new instead of being rejected'
+                            % (grid[0][0], grid[0][1][0])))
+        except Undecided as e:
+            bad.append((grid[0], 'undecided', str(e)[:200]))
+    # (a) positions
+    if full:
+        grid = [(r, list(range(8))) for r in range(8)]
+    else:
+        grid = [(r, list(range(8)) if r in (0, 7) else [0, 3, 7]) for r in range(8)]
+    sinks = None
+    try:
+        sinks = run(grid)
+        nruns += 1
+    except Undecided as e:
+        bad.append(((0, [0]), 'undecided', str(e)[:200]))
+    if sinks is not None and not sinks:
+        bad.append(((0, [0]), 'shape', 'a well-formed diagram does not reach PieceBoard::new'))
+    nsq = 0
+    for acc in (sinks or []):
+        if not shape_ok(acc):
+            bad.append(((0, [0]), 'shape', 'PieceBoard::new receives %r' % (acc,)))
+            continue
+        scripted = {r * 8 + c for r, cols in grid for c in cols}
+        for j in range(64):
+            if j not in scripted and any(x.bits[j] is not C0 for x in acc):
+                bad.append(((j // 8, [j % 8]), 'square', 'bit %d can be set although no character was supplied for that square' % j))
+        ref_sig = None
+        for r, cols in grid:
+            for c in cols:
+                idx = r * 8 + c
+                nsq += 1
+                name = 'ch%d_%d' % (r, c)
+                g = [x.bits[idx] for x in acc]
+                foreign = sorted(set(key[:60] for b_ in g for _, key in char_atoms(b_) if ("'" + name + "'") not in key))
+                if foreign:
+                    bad.append(((r, [c]), 'square', 'bit %d depends on the character of another square: %s' % (idx, foreign[:2])))
+                    continue
+                if all(b_.kind == 'c' for b_ in g):
+                    bad.append(((r, [c]), 'square', 'bit %d of every board is constant: the character at row %d column %d is not recorded there' % (idx, r, c)))
+                    continue
+                sig = tuple(signature(b_, name) for b_ in g)
+                if ref_sig is None:
+                    ref_sig = sig
+                elif sig != ref_sig:
+                    bad.append(((r, [c]), 'uniform', 'the character at row %d column %d is interpreted differently from the one at row 0 column 0' % (r, c)))
+    # (b) exact relations for one square
+    saveK = B.K
+    B.K = 14
+    try:
+        try:
+            sinks1 = run([(2, [3])])
+            nruns += 1
+        except Undecided as e:
+            sinks1 = []
+            bad.append(((2, [3]), 'undecided', str(e)[:200]))
+        for acc in sinks1:
+            if not shape_ok(acc):
+                continue
+            idx = 19
+            g = [x.bits[idx] for x in acc]
+            owner, types = g[0], g[1:]
+            if I.decide(B.band(owner, B.bnot(B.bigor(types))), ()) is not False:
+                bad.append(((2, [3]), 'owner-without-piece', 'the gold-owner bit can be set for a character that sets no piece-type bit'))
+            for a in range(6):
+                for b2 in range(a + 1, 6):
+                    if I.decide(B.band(types[a], types[b2]), ()) is not False:
+                        bad.append(((2, [3]), 'two-types', 'one character can set two piece-type bits (arguments %d and %d)' % (a + 1, b2 + 1)))
+            if all(I.decide(x, ()) is False for x in types):
+                bad.append(((2, [3]), 'no-piece', 'no character sets a piece-type bit'))
+    finally:
+        B.K = saveK
+    # (c) the printed letters, one constant character at a time: which board and owner the parser records for it
+    pfn = prog.one('convert_piece_to_letter')
+    if pfn is not None and sites:
+        Ic = inputs.make_interp(prog, fuel=5000000)
+        printed = {}
+        for pname in G.STRENGTH:
+            for gold in (True, False):
+                sink_s, sink_l = [], []
+                Ic.watch = {'<T as std::string::ToString>::to_string': sink_s, 'std::str::<impl str>::to_lowercase': sink_l}
+                st0 = State({})
+                Ic.memo.clear()
+                try:
+                    Ic.call_fn(pfn, [inputs.ref_to(Ic, st0, 'p', inputs.piece(prog, pname)), TRUE if gold else FALSE], st0)
+                except Undecided:
+                    pass
+                Ic.watch = {}
+                txt = [as_text(a[0]) for _c, a in sink_s] + [(as_text(a[0]) or '').lower() or None for _c, a in sink_l]
+                if len(txt) == 1 and txt[0] and len(txt[0]) == 1:
+                    printed[(pname, gold)] = txt[0]
+        order = [f_['name'] for f_ in prog.fns[newfn].get('arg_names', [])] if prog.fns[newfn].get('arg_names') else None
+        type_names = ['Elephant', 'Camel', 'Horse', 'Dog', 'Cat', 'Rabbit']      # PieceBoard::new(p1, e, m, h, d, c, r): checked by C10 accessors
+        def run_const(code):
+            st = State({})
+            st.store[('static', 'line0')] = Tok('line', 'str')
+            st.store[('static', 'line1')] = Ref(('static', 'line0'))
+            I.site_script = {id(t_out): [Enum(ty_out, 1, (Struct('tuple', (BV.const(2, 64), Ref(('static', 'line1')))),)), Enum(ty_out, 0)],
+                             id(t_in): [Enum(ty_in, 1, (Struct('tuple', (BV.const(3, 64), BV.const(code, 32))),)), Enum(ty_in, 0)]}
+            sink = []
+            I.watch = {'PieceBoard::new': sink}
+            I.memo.clear()
+            try:
+                I.call_fn(ffn, [inputs.ref_to(I, st, 's', Tok('text', 'str'))], st)
+            finally:
+                I.watch = {}
+                I.site_script = {}
+            outs = set()
+            for e in sink:
+                acc = e[1]
+                if not shape_ok(acc) or not all(x.known() for x in acc):
+                    return None
+                outs.add(tuple(x.uval() for x in acc))
+            return outs
+        for (pname, gold), letter in sorted(printed.items()):
+            try:
+                outs = run_const(ord(letter))
+            except Undecided:
+                outs = None
+            want = tuple([(1 << 19) if gold else 0] + [(1 << 19) if tn == pname else 0 for tn in type_names])
+            ok = outs == {want}
+            ctx.ob('the parser records the printed letter %r as a %s %s on its square' % (letter, 'gold' if gold else 'silver', pname), ok,
+                   sample=(pname == 'Camel'))
+            if not ok:
+                ctx.finding(R, ffn, 'letter:%s:%s' % (pname, 'gold' if gold else 'silver'),
+                            'the printed letter %r (%s %s) is recorded by the parser as %r' % (letter, 'gold' if gold else 'silver', pname, outs))
+        for letter in ' x':
+            try:
+                outs = run_const(ord(letter))
+            except Undecided:
+                outs = None
+            ok = outs == {(0,) * 7}
+            ctx.ob('the parser records nothing for %r' % letter, ok)
+            if not ok:
+                ctx.finding(R, ffn, 'nonpiece:%d' % ord(letter), 'the character %r of an empty square is recorded as %r' % (letter, outs))
+        ctx.floor('printed diagram letters', len(printed), 12)
+    ctx.analysed['parser_scripted_squares'] = nsq
+    ctx.floor('diagram parser scripted runs', nruns, 4)
+    kinds = {}
+    for (rc, kind, msg) in bad:
+        kinds.setdefault(kind, []).append((rc, msg))
+    for kind in ('square', 'uniform', 'owner-without-piece', 'two-types', 'no-piece', 'bounds', 'shape', 'undecided'):
+        ctx.ob('diagram parser: no "%s" violation' % kind, kind not in kinds, sample=(kind in ('owner-without-piece', 'square')))
+        if kind in kinds:
+            rc, msg = kinds[kind][0]
+            ctx.finding(R, ffn, kind, '%s (%d positions affected)' % (msg, len(kinds[kind])))
